@@ -241,7 +241,7 @@ def run(ctx):
     phase("corr decon")
     # ---- end to end units
     jobs = plan_units(ctx) if not berr else []
-    deadline = time.time() + (130 if quick else 3600)
+    deadline = time.time() + (140 if quick else 3600)
     results = []
     lock = threading.Lock()
     stats = {"planned": len(jobs), "ran": 0, "skipped_budget": 0, "built": 0, "nobuild": 0, "rejected": 0, "rejected_with_previous_outdir": 0}
@@ -265,10 +265,17 @@ def run(ctx):
             results.append(r)
         return r
 
-    # cheap units first (rejected schemas need no build; the four tiny witnesses), then the big repository
-    # builds, then mutated and random schemas interleaved: whatever the budget cuts off is the tail
-    rank = {"invalid": 0, "witness": 0, "repo": 1, "mutated": 2, "random": 2}
-    order = sorted(range(len(jobs)), key=lambda i: (rank[jobs[i]["kind"]], i if rank[jobs[i]["kind"]] < 2 else int(re.sub(r"\D", "", jobs[i]["name"]) or 0), jobs[i]["kind"]))
+    # cheap units first (rejected schemas need no build; the tiny witnesses), then the big repository builds
+    # interleaved 1:3 with mutated / random schemas: whatever the wall-clock budget cuts off is a tail that
+    # contains every kind of unit
+    cheap = [i for i, j in enumerate(jobs) if j["kind"] in ("invalid", "witness")]
+    repo = [i for i, j in enumerate(jobs) if j["kind"] == "repo"]
+    rest = sorted((i for i, j in enumerate(jobs) if j["kind"] in ("mutated", "random")),
+                  key=lambda i: (int(re.sub(r"\D", "", jobs[i]["name"]) or 0), jobs[i]["kind"], i))
+    order = list(cheap)
+    while repo or rest:
+        order += repo[:1] + rest[:3]
+        repo, rest = repo[1:], rest[3:]
     with ThreadPoolExecutor(max_workers=8) as ex:
         list(ex.map(work, [jobs[i] for i in order]))
 
